@@ -134,4 +134,14 @@ def run(ctx):
 
     for case in ctx.cases("rt", ctx.params.get("n_rt", 400)):
         ctx.run_case(case, one)
+    # the third clause in a loaded IR: tables are decoded when first read,
+    # against the IR as it is then
+    from . import c09
+
+    def late(case):
+        ctx.count("cases")
+        c09.late_reads(ctx, case, gtirb, "C07")
+        ctx.seen("nontrivial", ("late", case.index))
+    for case in ctx.cases("late", max(50, ctx.params.get("n_rt", 400) // 100)):
+        ctx.run_case(case, late)
     mon.close()
